@@ -510,6 +510,10 @@ evmap_signal_active_(struct event_base *base, evutil_socket_t sig, int ncalls)
 
 	if (!ctx)
 		return;
+	/* The call count of an event is a short: do not let a larger count
+	 * wrap (possibly to 0, which would lose the whole batch). */
+	if (ncalls > SHRT_MAX)
+		ncalls = SHRT_MAX;
 	LIST_FOREACH(ev, &ctx->events, ev_signal_next)
 		event_active_nolock_(ev, EV_SIGNAL, ncalls);
 }
